@@ -187,6 +187,9 @@ def run_path(cset, fc, prefix, res, opts):
     ctx = PathCtx(prefix, strings=strings)
     I = Interp(cset, ctx)
     res.paths += 1
+    sh = opts.get("shard")
+    if sh:
+        ctx.skip_prove = (res.paths - 1) % sh[1] != sh[0]
     outcome = None
     try:
         env = make_entry_env(I, fc)
